@@ -96,18 +96,39 @@ func cmdFn(argv []string) int {
 	}
 	rc := 0
 	for _, key := range args[1:] {
+		var res *FuncResult
+		if strings.HasPrefix(key, "bvlemma:") {
+			// fn <pkg> bvlemma:NAME
+			for _, cf := range w.cfiles {
+				for _, l := range cf.BVLemmas {
+					if cf.PkgPath == pkgPath && l.Label == strings.TrimPrefix(key, "bvlemma:") {
+						res = w.proveBVLemma(cf, l)
+					}
+				}
+			}
+			if res == nil {
+				for _, cf := range w.cfiles {
+					fmt.Println("  contract file", cf.PkgPath, len(cf.BVLemmas), "bvlemmas")
+				}
+				fmt.Println("UNBOUND", key)
+				rc = 2
+				continue
+			}
+		}
 		full := w.fullFuncName(pkgPath, key)
 		fn := w.findFunction(full)
-		if fn == nil {
+		if fn == nil && res == nil {
 			fmt.Println("UNBOUND", full)
 			rc = 2
 			continue
 		}
-		c := w.contractFor(fn)
-		if c == nil {
-			c = &FuncContract{Key: key, PkgPath: pkgPath, Inv: map[int][]*Clause{}, Dec: map[int]*Clause{}, NoPanic: true}
+		if res == nil {
+			c := w.contractFor(fn)
+			if c == nil {
+				c = &FuncContract{Key: key, PkgPath: pkgPath, Inv: map[int][]*Clause{}, Dec: map[int]*Clause{}, NoPanic: true}
+			}
+			res = w.verifyFunc(fn, c)
 		}
-		res := w.verifyFunc(fn, c)
 		if res.Err != "" {
 			fmt.Println("ERROR", res.Err)
 			rc = 2
@@ -265,6 +286,16 @@ func cmdCheck(writeBaseline bool, argv []string) int {
 				unbound = append(unbound, full+": "+res.Err)
 			} else if res.Err != "" {
 				fmt.Fprintf(os.Stderr, "ENGINE-ERROR %s: %s\n", full, res.Err)
+			}
+		}
+		for _, l := range cf.BVLemmas {
+			if contains(l.Tags, prop) {
+				res := w.proveBVLemma(cf, l)
+				results = append(results, res)
+				funcs = append(funcs, shortName(res.Name))
+				if strings.HasPrefix(res.Err, "binding") {
+					unbound = append(unbound, res.Name+": "+res.Err)
+				}
 			}
 		}
 		for _, l := range cf.Lemmas {
@@ -768,6 +799,11 @@ func (w *World) assumptionList(results []*FuncResult) (assumptions []string, tru
 			add("trusted contract (assumed, not checked): " + name)
 		}
 		if !c.Trusted && c.used {
+			for _, e := range c.Requires {
+				if e.Assumed {
+					add("assumed fact about the inputs (assumed in the body, not demanded of callers): " + name + ": " + e.Text)
+				}
+			}
 			for _, e := range c.Ensures {
 				if e.Assumed {
 					add("assumed postcondition (used by callers, not checked on the body): " + name + ": " + e.Text)
